@@ -786,3 +786,76 @@ def choose_program(rng, in_types, dwarf, file_hint=None, bombs=True):
     if dwarf and info.get("out") == ["X"] and list(in_types) == ["D"]:
         info = dict(info, out=[infer_top(text)])
     return text, info
+
+
+SURVIVOR_FOLLOWUPS = {
+    "AB": ["attribute", "attribute label", "code", "offset", "entry", "label", "?haschildren", "attribute form", "[attribute] length"],
+    "A": ["value", "label", "form", "\"%s\"", "raw value", "[value] length"],
+    "Y": ["name", "label", "address", "size", "binding", "\"%s\""],
+    "U": ["root", "entry offset", "offset", "version", "abbrev entry", "[entry] length", "root child offset"],
+    "E": ["child offset", "parent offset", "root offset", "attribute label", "[child] length", "name", "\"%s\"", "abbrev attribute label",
+          "@AT_type offset", "child*  offset", "[attribute value] length"],
+    "D": ["entry offset", "unit offset", "[entry] length", "symbol name", "abbrev entry offset", "name"],
+    "B": ["apply", "(|F| 5 F)", "dup apply", "(|F| (1, 2) F)"],
+    "X": ["\"%s\"", "type", "dup", "elem", "length", "value", "label", "attribute", "child offset", "apply"],
+}
+
+
+def gen_sole_survivor(rng, profile):
+    """A value outlives everything it came from -- the result set, the query,
+    the input stack, the Dwarf value, the output stack it was found on -- and
+    is then used by a new query; the new input stack goes too, as soon as the
+    execution has started.  Whatever the value needs must be kept alive by the
+    value itself."""
+    b = Builder(rng, profile)
+    plan = b.plan
+    common_knobs(rng, plan)
+    if profile != "C13":
+        plan["knobs"]["leakcheck"] = 0
+    dw = rng.random() < 0.75
+    S = b.setup
+    if dw:
+        f = rng.choice(pick_files(rng, 2))
+        v = b.v()
+        S.append(P.step(0, "OPEN", v, P.hexenc("/sim/0/" + f), rng.choice(["cooked", "cooked", "raw"])))
+        i0 = b.i()
+        S.append(P.step(0, "MKIN", i0, "V:%d" % v))
+        text, info = choose_program(rng, ["D"], True, bombs=False)
+    else:
+        i0 = b.i()
+        S.append(P.step(0, "MKIN", i0))
+        text = rng.choice(["{1 add}", "(1, 2) {1 add}", "let X := 5; {X add}", "(1, 2) (|A| {A 10 mul})", "[{1}, {2}] elem",
+                           "[1, [2, 3]]", "\"abc\"", "let X := [1, 2]; {X elem}", "(1, 2) (|A| {|B| A B add})"])
+        info = {"out": ["B" if "{" in text else "X"]}
+    q0 = b.q()
+    S.append(P.step(0, "PARSE", q0, b.prog(text, 0)))
+    r0 = b.res()
+    S.append(P.step(0, "EXEC", r0, q0, i0))
+    for _ in range(rng.choice([0, 0, 1, 2, 5])):
+        S.append(P.step(0, "PULL", r0))
+    o = b.o()
+    S.append(P.step(0, "PULL", r0, o))
+    i1 = b.i()
+    mk = P.step(0, "MKIN", i1, "O:%d:0" % o)
+    # the order in which the origins go varies; the clone is made at a seeded point
+    goners = [P.step(0, "CANCEL", r0), P.step(0, "DROPQ", q0), P.step(0, "DROPI", i0)]
+    if dw:
+        goners.append(P.step(0, "DROPV", v))
+    rng.shuffle(goners)
+    # DROPQ is only honoured once the result set is gone (unless the knob says otherwise)
+    goners.sort(key=lambda s: 0 if s["op"] == "CANCEL" else 1)
+    S.append(mk)
+    S += goners
+    S.append(P.step(0, "DROPO", o))
+    top = (info.get("out") or ["X"])[-1] if info.get("out") else "X"
+    text2 = rng.choice(SURVIVOR_FOLLOWUPS.get(top, SURVIVOR_FOLLOWUPS["X"]))
+    q1 = b.q()
+    S.append(P.step(0, "PARSE", q1, b.prog(text2, 0)))
+    r1 = b.res()
+    S.append(P.step(0, "EXEC", r1, q1, i1))
+    if rng.random() < 0.7:
+        S.append(P.step(0, "DROPI", i1))
+    for _ in range(rng.choice([1, 3, PULL_CAP])):
+        S.append(P.step(0, "PULL", r1))
+    S.append(P.step(0, "CANCEL", r1))
+    return b.merge()
